@@ -156,3 +156,30 @@ func lemmaSum20(s string) {
 //@   requires len(srcAddr) <= 16 && len(dstAddr) <= 16
 //@   ensures[sum] int(result)%65535 == (specSum16(string(srcAddr), 0) + specSum16(string(dstAddr), 0) + int(uint8(protocol)))%65535
 //@   ensures[nonzero] uint8(protocol) > 0 ==> result > 0
+
+// WriteTo: the frame handed to the underlying connection is udp4pkt's frame for this payload, destination and bound
+// address (the unspecified address for an unbound connection)
+//@ contract (*BroadcastRawUDPConn).WriteTo
+//@   requires upc != nil && upc.PacketConn != nil && len(b) <= 65507
+//@   requires upc.boundAddr == nil || (0 <= upc.boundAddr.Port && upc.boundAddr.Port <= 65535)
+//@   requires typeIs(addr, *net.UDPAddr) ==> addr.(*net.UDPAddr) != nil && 0 <= addr.(*net.UDPAddr).Port && addr.(*net.UDPAddr).Port <= 65535
+//@   after `pkt := udp4pkt(b, udpAddr, src)` assert[frame] len(pkt) == 28 + len(b) && string(pkt)[28:] == string(b) && ipHdrOK(string(pkt), len(b), string(src.IP), string(udpAddr.IP)) && udpHdrOK(string(pkt), len(b), src.Port, udpAddr.Port, specSum16(specAddr4(string(src.IP)), 0), specSum16(specAddr4(string(udpAddr.IP)), 0), specSum16(string(b), 0))
+
+// ReadFrom: every read offers the underlying connection a buffer that holds the largest frame whose payload fits b;
+// a frame is delivered only if it is a well-formed IPv4/UDP datagram (version 4, header length >= 20 and <= total length
+// <= bytes read, protocol 17, a complete UDP header, room for the UDP header within the IP total length) addressed to the
+// bound port (and bound address if one is set); the payload delivered is bounded by the IP total length (no link padding)
+//@ define frameOK(F, n) = n >= 20 && n == len(F) && int(F[0])/16 == 4 && int(F[0])%16*4 >= 20 && int(F[0])%16*4 <= specWord(F, 2) && specWord(F, 2) <= n && int(F[9]) == 17 && n - int(F[0])%16*4 >= 8 && specWord(F, 2) - int(F[0])%16*4 >= 8
+//@ contract (*BroadcastRawUDPConn).ReadFrom
+//@   requires upc != nil && upc.PacketConn != nil
+//@   modifies b
+//@   after `n, _, err := upc.PacketConn.ReadFrom(pkt)` assert[buffer] len(pkt) == 68 + len(b)
+//@   after `dhcpLen := int(ipHdr.payloadLength()) - udpHdrLen` assert[acc-len] n >= 20 && n == len(pkt)
+//@   after `dhcpLen := int(ipHdr.payloadLength()) - udpHdrLen` assert[acc-version] int(pkt[0])/16 == 4
+//@   after `dhcpLen := int(ipHdr.payloadLength()) - udpHdrLen` assert[acc-hlen] int(pkt[0])%16*4 >= 20 && int(pkt[0])%16*4 <= specWord(string(pkt), 2) && specWord(string(pkt), 2) <= n
+//@   after `dhcpLen := int(ipHdr.payloadLength()) - udpHdrLen` assert[acc-proto] int(pkt[9]) == 17
+//@   after `dhcpLen := int(ipHdr.payloadLength()) - udpHdrLen` assert[acc-udp] n - int(pkt[0])%16*4 >= 8
+//@   after `dhcpLen := int(ipHdr.payloadLength()) - udpHdrLen` assert[acc-payload] dhcpLen == specWord(string(pkt), 2) - int(pkt[0])%16*4 - 8 && len(buf.Buffer.data) == n - int(pkt[0])%16*4 - 8
+//@   after `dhcpLen := int(ipHdr.payloadLength()) - udpHdrLen` assert[acc-port] upc.boundAddr != nil ==> upc.boundAddr.Port == specWord(string(pkt), int(pkt[0])%16*4+2)
+//@   ensures[count] err == nil ==> 0 <= result0 && result0 <= len(b)
+//@   ensures[addr] err == nil ==> result1 != nil
